@@ -10,6 +10,14 @@ from .loader import ClassInfo, FuncInfo
 from .state import Frame, PathEnd, St
 
 
+class _IfView:
+    """an if statement with its branches possibly swapped"""
+    __slots__ = ("body", "orelse")
+
+    def __init__(self, body, orelse):
+        self.body, self.orelse = body, orelse
+
+
 class LoopCtl(Exception):
     def __init__(self, kind):
         self.kind = kind
@@ -371,6 +379,13 @@ class StmtMixin:
     # ------------------------------------------------------------ control flow
     def ex_If(self, s, fr, st):
         c = self.val(s.test, fr, st)
+        body, orelse = s.body, s.orelse
+        # canonical form: `if not x: A else: B` is evaluated as `if x: B else: A`, so that path conditions and
+        # merge nodes always carry the positive condition, however the test is spelled
+        while c.op == "UnaryOp" and c.attr == "Not":
+            c = c.args[0]
+            body, orelse = orelse, body
+        s = _IfView(body, orelse)
         t = self.truth(c)
         if t is True:
             return self.exec_block(s.body, fr, st)
